@@ -72,6 +72,14 @@ POST = {
                                 reconf_opts=dict(subtree_size=3, maxiter=2)),
     "reconf_opts": dict(subtree_size=3, maxiter=2),
 }
+# forested variants of the two reconfiguring stages (replace the plain ones)
+POST_FORESTED = {
+    "slicing_reconf_opts": dict(target_size=16, max_repeats=2, forested=True,
+                                num_trees=2, parallel=False,
+                                reconf_opts=dict(subtree_size=3, maxiter=2)),
+    "reconf_opts": dict(subtree_size=3, subtree_maxiter=2, forested=True,
+                        num_trees=2, num_restarts=1, parallel=False),
+}
 
 
 def register_failing_methods():
@@ -164,7 +172,12 @@ def make_opt(ms, mz, post, max_repeats, parallel, optlib="random",
     # with it): every run draws the same sequence
     random.seed(20240101)
 
-    kw = {k: dict(POST[k]) for k in post}
+    kw = {}
+    for k in post:
+        if k.endswith(":forested"):
+            kw[k.split(":")[0]] = dict(POST_FORESTED[k.split(":")[0]])
+        else:
+            kw[k] = dict(POST[k])
     okw = {"seed": 0} if optlib == "random" else {}
     return ctg.HyperOptimizer(
         methods=METHOD_SETS[ms], minimize=mz, max_repeats=max_repeats,
@@ -248,6 +261,10 @@ def work(unit):
     if kind == "serial":
         subsets = [c for r in range(5)
                    for c in itertools.combinations(POST, r)]
+        # + every subset again with the reconfiguring stages forested
+        subsets += [tuple(k + ":forested" if k in POST_FORESTED else k
+                          for k in c) for c in subsets
+                    if any(k in POST_FORESTED for k in c)]
         for post in subsets:
             for optlib in ("random", "cmaes"):
                 if optlib == "cmaes" and ("failing" in ms or "random" in
@@ -276,7 +293,7 @@ def work(unit):
                         f"hyper:{bad[0][0]}:{'+'.join(post) or 'plain'}",
                         case, bad[:3], max_per_unit=2)
         res.sample({"mode": "serial", "net": net, "methods": ms,
-                    "minimize": mz, "post_subsets": 16}, cap=1)
+                    "minimize": mz, "post_subsets": 28}, cap=1)
         return res
 
     post, reps = extra[0], extra[1]
